@@ -1551,6 +1551,12 @@ def int_method(i, fr, st, pc, a, t, fn, r, name=None, tyname=None):
     if name in ("checked_add", "checked_sub", "saturating_add", "saturating_sub", "checked_mul", "wrapping_mul", "saturating_mul", "pow", "checked_pow", "wrapping_neg", "abs_diff", "min", "max", "rem_euclid", "div_euclid", "checked_div", "checked_rem", "next_power_of_two", "is_power_of_two", "ilog2", "leading_zeros", "trailing_ones", "leading_ones", "count_zeros", "rotate_left", "rotate_right", "swap_bytes", "reverse_bits"):
         if not conc and name == "leading_zeros":
             return _ret(i, st, pc, _zeros_count(x, True))
+        if not conc and name in ("trailing_ones", "leading_ones"):
+            inv = W(w, bits=[B.bnot(b_) for b_ in x.all_bits()], signed=x.signed)
+            return _ret(i, st, pc, _zeros_count(inv, name == "leading_ones"))
+        if not conc and name == "count_zeros":
+            inv = W(w, bits=[B.bnot(b_) for b_ in x.all_bits()], signed=x.signed)
+            return count_ones(i, fr, st, pc, [inv], t, fn, r)
         if not conc and name == "wrapping_neg":
             return _ret(i, st, pc, w_sub(W(w, val=0, signed=x.signed), x)[0])
         if not conc and name == "wrapping_mul" and len(a) == 2 and isinstance(a[1], W) and (x.val is not None or a[1].val is not None):
@@ -4022,6 +4028,17 @@ def render_text(tokens, asg):
         else:
             raise Undecided("token %r" % (tk[0],))
     return "".join(out)
+
+
+def ptr_eq(i, fr, st, pc, a, t, fn, r):
+    """std::ptr::eq on two references: same object (cell, path, window) or not"""
+    x, y = a
+    if isinstance(x, Ptr) and isinstance(y, Ptr):
+        return _ret(i, st, pc, wbool(x.cell == y.cell and x.path == y.path and x.sl == y.sl))
+    raise Undecided("ptr::eq of %r and %r" % (x, y))
+
+
+TABLE.update({"std::ptr::eq": ptr_eq, "core::ptr::eq": ptr_eq})
 
 
 def _int_dispatch(path):
